@@ -74,7 +74,7 @@ def run_noauth_priv(R, variant, priv_pw, engine_id, marker):
     R.mon["priv_without_auth_nothing_in_clear"] += 1
 
 
-def run_case(R, level, variant, op, auth_pw, priv_pw, engine_id, ctx_name, boots, tshift, marker, rotate=None, ctx_engine=b""):
+def run_case(R, level, variant, op, auth_pw, priv_pw, engine_id, ctx_name, boots, tshift, marker, rotate=None, ctx_engine=b"", report_ctx=None):
     hashname = "md5" if "md5" in level else "sha1"
     db = {BASE + (i, 0): ("str", b"value-%d-" % i + hashlib.sha256(b"v%d" % i).digest()[:10]) for i in range(1, 6)}
     agent_clock = env.Clock()
@@ -87,7 +87,12 @@ def run_case(R, level, variant, op, auth_pw, priv_pw, engine_id, ctx_name, boots
         clock=agent_clock,
     )
     agent_clock.now += tshift
-    case = {"level": level, "variant": variant, "op": op, "auth_pw": "hex:" + auth_pw.hex(), "priv_pw": "hex:" + priv_pw.hex(), "engine_id": "hex:" + engine_id.hex(),
+    if report_ctx is not None:
+        # the discovery report names ANOTHER context engine in its scoped PDU than the
+        # authoritative engine that sends it: keys belong to the authoritative engine
+        w.agent.report_context_engine = report_ctx
+        R.mon["discovery_reports_naming_another_context_engine"] += 1
+    case = {"report_ctx": "hex:" + (report_ctx or b"").hex(), "level": level, "variant": variant, "op": op, "auth_pw": "hex:" + auth_pw.hex(), "priv_pw": "hex:" + priv_pw.hex(), "engine_id": "hex:" + engine_id.hex(),
             "ctx_name": "hex:" + ctx_name.hex(), "ctx_engine": "hex:" + ctx_engine.hex(), "boots": boots, "tshift": tshift, "marker": "hex:" + marker.hex()}
     w.seam.budget = 40
     privxf.CALLS.clear()
@@ -261,6 +266,8 @@ FIXED_ENGINE = bytes.fromhex("80001f8804") + b"c11-fixed-engine"
 
 def run(R):
     n = N_CASES[R.tier]
+    if R.shard == 1 % R.nshards:
+        ambiguous_pairs(R)
     for i in range(n):
         if not R.mine(i):
             continue
@@ -289,9 +296,34 @@ def run(R):
         # a configured CONTEXT engine id (a proxied device) differs from the agent's
         # authoritative engine id: keys are localised with the latter
         ctx_engine = bytes([0x80]) + bytes(rng.getrandbits(8) for _ in range(rng.randint(4, 20))) if i % 5 == 4 else b""
-        run_case(R, level, variant, op, auth_pw, priv_pw, engine_id, ctx_name, boots, tshift, marker, rotate=rotate, ctx_engine=ctx_engine)
+        report_ctx = bytes([0x80]) + bytes(rng.getrandbits(8) for _ in range(rng.randint(4, 31))) if i % 7 == 3 else None
+        run_case(R, level, variant, op, auth_pw, priv_pw, engine_id, ctx_name, boots, tshift, marker, rotate=rotate, ctx_engine=ctx_engine, report_ctx=report_ctx)
         if i % 10 == 7:
             run_noauth_priv(R, variant, priv_pw, engine_id, marker)
+
+
+def ambiguous_pairs(R):
+    """Two (password, engine id) pairs in ONE process whose concatenation - plain or with
+    a separator octet - is the same byte string: anything remembered under a joined key
+    would hand the second device the first one's localised key."""
+    marker = hashlib.sha256(b"ambiguous").digest()[:16]
+    k = 0
+    for sep in (b"", b"\x00", b":", b"|", b"/", b",", b"\x00\x00", b"\xff"):
+        for a in (b"", b"\x80\x00", b"\x00"):
+            if not a and not sep:
+                continue
+            k += 1
+            b_ = bytes.fromhex("00000963") + b"ore-sw%d" % k
+            e1 = a + sep + b_
+            for which in ("priv", "auth", "both"):
+                p1 = b"s3cr3t-%d" % k
+                p2 = p1 + sep + a
+                for level in ("v3-md5-priv", "v3-sha1-priv"):
+                    for (pw, eng) in ((p1, e1), (p2, b_), (p1, e1)):
+                        auth_pw = pw if which in ("auth", "both") else b"auth-password"
+                        priv_pw = pw if which in ("priv", "both") else b"priv-password"
+                        run_case(R, level, VARIANTS[k % len(VARIANTS)], "set", auth_pw, priv_pw, eng, b"", 3, 0, marker)
+                        R.mon["ambiguous_join_cases"] += 1
 
 
 def replay(R, v):
@@ -303,4 +335,4 @@ def replay(R, v):
     rotate = (h("rotated_priv_pw"), c["variant"]) if "rotated_priv_pw" in c else None
     if rotate is not None and rotate[0] == h("priv_pw"):
         rotate = (None, c["variant"])
-    run_case(R, c["level"], c["variant"], c["op"], h("auth_pw"), h("priv_pw"), h("engine_id"), h("ctx_name"), c["boots"], c["tshift"], h("marker"), rotate=rotate, ctx_engine=bytes.fromhex(c.get("ctx_engine", "hex:")[4:]))
+    run_case(R, c["level"], c["variant"], c["op"], h("auth_pw"), h("priv_pw"), h("engine_id"), h("ctx_name"), c["boots"], c["tshift"], h("marker"), rotate=rotate, ctx_engine=bytes.fromhex(c.get("ctx_engine", "hex:")[4:]), report_ctx=bytes.fromhex(c.get("report_ctx", "hex:")[4:]) or None)
